@@ -219,6 +219,17 @@ class ConcE:
         except Exception as e:
             raise ConcRaised(exc_name(e), e)
 
+    def classcall(self, cls_qual, name, *args, **kw):
+        c = self.cls(cls_qual)
+        return self._run(lambda: getattr(c, name)(*args, **kw))
+
+    def func_exists(self, qual):
+        try:
+            self.func(qual)
+            return True
+        except (KeyError, AttributeError):
+            return False
+
     def call(self, qual, *args, **kw):
         f = self.func(qual)
         return self._run(lambda: f(*args, **kw))
